@@ -69,6 +69,7 @@ type Config struct {
 	PanicOK     bool // uncaught panic is not a violation (harness decides with ExpectPanic)
 	UnwindIsBug bool // hitting the unwinding bound is the violation (termination harnesses)
 	NoSpawn     bool // `go f()` is logged, not run
+	SchedBound  int  // number of scheduling points per path at which a goroutine other than the lowest-numbered runnable one may be chosen
 	Verbose     bool
 	MaxViolPerLabel int
 	ReverseMaps bool
@@ -95,6 +96,7 @@ type Engine struct {
 	nondets   []*Term
 	nondetArr []*nondetBytes
 	steps     int64
+	schedUsed int
 	observes  []string
 	covers    map[string]bool
 	ghostLog  []string
@@ -613,6 +615,7 @@ func (e *Engine) resetPath() {
 	e.nondets = nil
 	e.nondetArr = nil
 	e.steps = 0
+	e.schedUsed = 0
 	e.observes = nil
 	e.covers = map[string]bool{}
 	e.ghostLog = nil
